@@ -69,6 +69,12 @@ func genBody(t *rapid.T) any {
 		// sizes straddling the buffer growth steps and the compression threshold
 		base := rapid.SampledFrom([]int{0, 1, 1000, 1023, 1024, 1025, 2048, 4095, 4096, 4097, 8192, 16384, 65535, 65536, 131072, 262144, 300000}).Draw(t, "size")
 		n := base + rapid.IntRange(-3, 3).Draw(t, "jitter")
+		switch rapid.IntRange(0, 5).Draw(t, "near-frame-boundary") {
+		case 0, 1:
+			// the frame is the payload plus a header of a few dozen bytes that depends on the kind
+			// and the addressing: sweep the payload sizes whose *frame* lands on a buffer boundary
+			n = 4096*rapid.SampledFrom([]int{1, 1, 1, 2, 4, 16}).Draw(t, "frame-k") - rapid.IntRange(0, 90).Draw(t, "header")
+		}
 		if rapid.IntRange(0, 2).Draw(t, "any-size") == 0 {
 			// not only the boundaries: any size up to a few buffer lengths (decoders may treat
 			// "large" binaries differently from some threshold that no constant here names)
